@@ -320,3 +320,126 @@ theorem logged_run (c : Cfg) (s : List Nat) (h : Logged c) : Logged (c.run s) :=
   | cons i r ih => exact ih _ (logged_sched c i h)
 
 end Sentinel.C10
+
+namespace Sentinel.C10
+open Sentinel.Throttle
+
+/-! ## draining: five rounds finish every thread -/
+
+/-- number of hooks a thread can still meet -/
+def muPc : Pc → Nat
+  | .load => 5 | .cas _ => 4 | .reload => 3 | .add => 2 | .rollback => 1 | .done _ => 0
+
+def muAt (c : Cfg) (j : Nat) : Nat := match c.ths[j]? with | some t => muPc t.pc | none => 0
+
+theorem mu_step (maxQ last : Int) (t : Th) (h : t.isDone = false) : muPc (stepTh maxQ last t).2.pc + 1 ≤ muPc t.pc := by
+  obtain ⟨now, iv, pc⟩ := t
+  cases pc with
+  | load => by_cases h1 : last + iv ≤ now <;> simp [stepTh, h1, muPc]
+  | cas l => by_cases h1 : last = l <;> simp [stepTh, h1, muPc]
+  | reload => by_cases h1 : last + iv - now > maxQ <;> simp [stepTh, h1, muPc]
+  | add => by_cases h1 : last + iv - now > maxQ <;> simp [stepTh, h1, muPc]
+  | rollback => simp [stepTh, muPc]
+  | done r => simp [Th.isDone] at h
+
+theorem sched_length (c : Cfg) (i : Nat) : (c.sched i).ths.length = c.ths.length := by
+  unfold Cfg.sched; split
+  · rfl
+  · split
+    · rfl
+    · simp
+
+theorem run_length (c : Cfg) (s : List Nat) : (c.run s).ths.length = c.ths.length := by
+  induction s generalizing c with
+  | nil => rfl
+  | cons i r ih => simp [Cfg.run, ih, sched_length]
+
+theorem muAt_sched (c : Cfg) (i j : Nat) :
+    muAt (c.sched i) j ≤ muAt c j ∧ (j = i → muAt (c.sched i) j ≤ muAt c j - 1) := by
+  unfold Cfg.sched
+  split
+  · rename_i hn
+    refine ⟨le_refl _, ?_⟩
+    rintro rfl
+    simp [muAt, hn]
+  · rename_i t ht
+    split
+    · rename_i hd
+      refine ⟨le_refl _, ?_⟩
+      rintro rfl
+      obtain ⟨now, iv, pc⟩ := t
+      cases pc <;> simp [Th.isDone] at hd
+      simp [muAt, ht, muPc]
+    · rename_i hd
+      have hd' : t.isDone = false := by simpa using hd
+      have hm := mu_step c.maxQ c.last t hd'
+      have hlt : i < c.ths.length := by
+        by_contra hge
+        rw [List.getElem?_eq_none (by omega)] at ht
+        cases ht
+      by_cases hj : j = i
+      · subst hj
+        simp only [muAt, List.getElem?_set, ht, hlt, ↓reduceIte, forall_const]
+        omega
+      · have hj' : ¬ i = j := fun h => hj h.symm
+        simp only [muAt, List.getElem?_set, hj', ↓reduceIte, hj, false_implies, and_true, le_refl]
+
+theorem muAt_run (c : Cfg) (s : List Nat) (j : Nat) :
+    muAt (c.run s) j ≤ muAt c j ∧ (j ∈ s → muAt (c.run s) j ≤ muAt c j - 1) := by
+  induction s generalizing c with
+  | nil => simp [Cfg.run]
+  | cons i r ih =>
+    have h1 := muAt_sched c i j
+    have h2 := ih (c.sched i)
+    refine ⟨le_trans h2.1 h1.1, ?_⟩
+    intro hj
+    simp only [Cfg.run]
+    rcases List.mem_cons.mp hj with rfl | hj
+    · have := h1.2 rfl; omega
+    · have := h2.2 hj; omega
+
+theorem muAt_round (c : Cfg) (j : Nat) : muAt c.round j ≤ muAt c j - 1 := by
+  unfold Cfg.round
+  by_cases hj : j < c.ths.length
+  · exact (muAt_run c _ j).2 (List.mem_range.mpr hj)
+  · have : muAt (c.run (List.range c.ths.length)) j = 0 := by
+      unfold muAt
+      rw [List.getElem?_eq_none (by rw [run_length]; omega)]
+    omega
+
+theorem mu_le_five (p : Pc) : muPc p ≤ 5 := by cases p <;> simp [muPc]
+
+/-- after the schedule and the five drain rounds every thread has finished -/
+theorem runSched_all_done (c : Cfg) (s : List Nat) : ∀ t ∈ (c.runSched s).ths, t.isDone = true := by
+  unfold Cfg.runSched
+  intro t ht
+  obtain ⟨j, hj, rfl⟩ := List.getElem_of_mem ht
+  have h0 : muAt (c.run s) j ≤ 5 := by
+    unfold muAt; split
+    · exact mu_le_five _
+    · omega
+  have key : ∀ (c : Cfg) (k : Nat), muAt c j ≤ k → muAt c.round j ≤ k - 1 :=
+    fun c k h => le_trans (muAt_round c j) (Nat.sub_le_sub_right h 1)
+  have h6 : muAt (c.run s).round.round.round.round.round j = 0 :=
+    Nat.le_zero.mp (key _ _ (key _ _ (key _ _ (key _ _ (key _ _ h0)))))
+  unfold muAt at h6
+  rw [List.getElem?_eq_getElem hj] at h6
+  revert h6
+  cases hpc : ((c.run s).round.round.round.round.round.ths[j]).pc <;> simp [muPc, Th.isDone, hpc]
+
+theorem rbCount_zero_of_all_done (ths : List Th) (h : ∀ t ∈ ths, t.isDone = true) : rbCount ths = 0 := by
+  simp only [rbCount, List.length_eq_zero_iff, List.filter_eq_nil_iff]
+  intro t ht
+  have := h t ht
+  obtain ⟨now, iv, pc⟩ := t
+  cases pc <;> simp [Th.isDone] at this
+  simp [Th.isRb]
+
+theorem good_final (base : Int) (c : Cfg) (hg : Good base c) (hd : ∀ t ∈ c.ths, t.isDone = true) :
+    Spaced base c.log ∧ c.last = latest base c.log := by
+  have hp := pend_zero_of_rbCount _ (rbCount_zero_of_all_done _ hd)
+  obtain ⟨h1, h2⟩ := hg
+  refine ⟨h1, ?_⟩
+  rw [h2, hp]; ring
+
+end Sentinel.C10
